@@ -15,6 +15,9 @@ def showOut : Out → String
 def showOuts (os : List Out) : String :=
   if os.isEmpty then "-" else " | ".intercalate (os.map showOut)
 
+/-- ordinary outputs, then the copies for monitors -/
+def showTx (t : Tx) : String := showOuts (t.out ++ t.mon)
+
 def kvNat (toks : List String) (key : String) (dflt : Nat) : Nat :=
   match toks.findSome? (fun t => match t.splitOn "=" with
       | [k, v] => if k = key then v.toNat? else none
@@ -44,8 +47,8 @@ def busCmd (st : BusState) (toks : List String) : BusState × String :=
   | ["connect", c, uid, gids, fd] =>
     match c.toNat?, uid.toNat? with
     | some c, some uid =>
-      let (b, out) := step driverTable st.bus (.connect c uid (natList gids) (fd = "1"))
-      ({ st with bus := b }, showOuts out)
+      let t := step driverTable st.bus (.connect c uid (natList gids) (fd = "1"))
+      ({ st with bus := t.bus }, showTx t)
     | _, _ => (st, "bad-op")
   | ["msg", c, hex] =>
     match c.toNat?, ofHex hex with
@@ -54,19 +57,19 @@ def busCmd (st : BusState) (toks : List String) : BusState × String :=
       match loadOne true st.maxMsg fds bs with
       | .ok m n =>
         if n = bs.length then
-          let (b, out) := step driverTable st.bus (.msg c m)
-          ({ st with bus := b }, showOuts out)
+          let t := step driverTable st.bus (.msg c m)
+          ({ st with bus := t.bus }, showTx t)
         else (st, "bad-op")
       | .corrupt =>
-        let (b, out) := step driverTable st.bus (.invalid c)
-        ({ st with bus := b }, showOuts out)
+        let t := step driverTable st.bus (.invalid c)
+        ({ st with bus := t.bus }, showTx t)
       | .incomplete => (st, "bad-op")
     | _, _ => (st, "bad-op")
   | ["close", c] =>
     match c.toNat? with
     | some c =>
-      let (b, out) := step driverTable st.bus (.close c)
-      ({ st with bus := b }, showOuts out)
+      let t := step driverTable st.bus (.close c)
+      ({ st with bus := t.bus }, showTx t)
     | none => (st, "bad-op")
   | "policy" :: ctx :: verdict :: attrs =>
     let as : List (String × Bytes) := attrs.filterMap fun t =>
@@ -92,7 +95,7 @@ def busCmd (st : BusState) (toks : List String) : BusState × String :=
       | some p' => ({ st with bus := { st.bus with policy := p' } }, "ok")
       | none => (st, "bad-op")
   | ["timeout"] =>
-    let (b, out) := step driverTable st.bus .timeout
-    ({ st with bus := b }, showOuts out)
+    let t := step driverTable st.bus .timeout
+    ({ st with bus := t.bus }, showTx t)
   | ["state"] => (st, showState st.bus)
   | _ => (st, "bad-op")
